@@ -1,4 +1,264 @@
-import Anything.Model.Cbor
+import Anything.Lemmas.CborCodec
+import Anything.Lemmas.CborJson
+import Anything.Spec.PinnedIds
+/-!
+# C17 — stored facts and units survive serialisation unchanged
+
+Model: `Model/Cbor.lean`. Three layers, each proved for **all** values (unbounded
+integers, compounds of any length, any constant):
+
+* **value level** — `decX (encX x) = some x` for the codecs `X → CVal` of `BigInt`,
+  `Ratio<BigInt>`, `Unit`, `State`, `Compound`, `Constant`;
+* **byte level** — `decodeAll (encode v) = some v` for every `CVal` whose integer
+  arguments and lengths fit the 64-bit CBOR heads (`Encodable`), with the three
+  ingredients `ofBe ∘ beBytes`, `readHead ∘ head`, `fromUtf8 ∘ utf8` (the last one for
+  every list of characters, no validity hypothesis);
+* **composition** — bytes → `CVal` → value gives back the value.
+
+Then the identifier table (`Generated.units`, `Generated.idConsts`) and the JSON
+printer. Helper lemmas: `Lemmas/CborValue.lean`, `Lemmas/CborBytes.lean`,
+`Lemmas/CborCodec.lean`, `Lemmas/CborJson.lean`.
+
+Hypotheses are exactly the ones needed; for each there is a theorem or example
+showing that dropping it makes the statement false (`C17_unit_iff`,
+`C17_compound_iff`, `C17_bytes_bound_needed`, `C17_cInt_encodable_iff`).
+-/
+
 namespace Anything.Props.C17
-theorem C17_placeholder : True := trivial
+open Anything Anything.Cbor
+
+/-! ## Value level -/
+
+/-- **C17 (big integers).** Sign and base-2^32 limbs decode to the same integer, for every `Int`. -/
+theorem C17_bigint (i : Int) : decBigInt (encBigInt i) = some i := decBigInt_encBigInt i
+
+/-- The limbs written are canonical: below `2^32` and they denote the absolute value. -/
+theorem C17_limbs (n : Nat) : (∀ l ∈ toLimbs n, l < 2 ^ 32) ∧ ofLimbs (toLimbs n) = n :=
+  ⟨toLimbs_lt n, ofLimbs_toLimbs n⟩
+
+example : decBigInt (encBigInt (-(2 ^ 100) - 7)) = some (-(2 ^ 100) - 7) := C17_bigint _
+example : toLimbs (2 ^ 64 + 5) = [5, 0, 1] := by decide
+
+/-- **C17 (rationals).** Every rational (numerator and denominator unbounded). -/
+theorem C17_rat (r : Rat) : decRat (encRat r) = some r := decRat_encRat r
+
+example : decRat (encRat (-5 / 3)) = some (-5 / 3) := C17_rat _
+
+/-- Well-formedness of unit keys (`Cbor.UnitOk`): every base unit; a derived key iff its id
+is in the generated table. -/
+example (b : Base) : UnitOk (.base b) = True := rfl
+example (id : Nat) : UnitOk (.derived id) = ∃ u ∈ Generated.units, u.id = id := rfl
+
+/-- **C17 (units).** Supported unit keys round-trip. -/
+theorem C17_unit (u : UnitKey) (h : UnitOk u) : decUnit (encUnit u) = some u := decUnit_encUnit u h
+
+/-- … and *only* those: the decoder refuses an id that is not in the table. -/
+theorem C17_unit_iff (u : UnitKey) : decUnit (encUnit u) = some u ↔ UnitOk u := decUnit_encUnit_iff u
+
+/-- The table satisfies the predicate: all eight base units and all derived units of the table. -/
+theorem C17_unit_table :
+    (∀ b : Base, UnitOk (.base b)) ∧ (∀ u ∈ Generated.units, UnitOk (.derived u.id)) :=
+  ⟨fun _ => trivial, fun u hu => ⟨u, hu, rfl⟩⟩
+
+example : UnitOk (.derived 353022001) := by decide +kernel   -- newton
+example : ¬ UnitOk (.derived 7) := by decide +kernel
+example : decUnit (encUnit (.derived 7)) = none := by decide +kernel
+
+/-- **C17 (state).** Power and prefix of a compound entry, any integers. -/
+theorem C17_state (s : State) : decState (encState s) = some s := decState_encState s
+
+/-- **C17 (compounds).** Any association list of supported keys — no sortedness or
+distinctness is needed, because the model decoder returns the entries in file order
+(`#eval` check: the unsorted list with a duplicate key
+`[(Second,⟨1,0⟩), (D353022001,⟨-2,3⟩), (Second,⟨5,-3⟩)]` round-trips; in the Rust a
+`BTreeMap` can never be in that shape). -/
+theorem C17_compound (c : Compound) (h : CompoundOk c) : decCompound (encCompound c) = some c :=
+  decCompound_encCompound c h
+
+/-- Supported keys are necessary as well. -/
+theorem C17_compound_iff (c : Compound) : decCompound (encCompound c) = some c ↔ CompoundOk c :=
+  decCompound_encCompound_iff c
+
+/-- A kilo-newton-like compound with a prefix and a negative power. -/
+def exCompound : Compound := [(.derived 353022001, ⟨-2, 3⟩), (.base .Second, ⟨1, 0⟩)]
+
+theorem C17_exCompound_ok : ∀ e ∈ exCompound, UnitOk e.1 ∧ StateOk e.2 := by decide +kernel
+
+example : CompoundOk exCompound := fun e he => (C17_exCompound_ok e he).1
+example : decCompound (encCompound [(.base .Second, ⟨1, 0⟩), (.derived 353022001, ⟨-2, 3⟩),
+    (.base .Second, ⟨5, -3⟩)]) = some [(.base .Second, ⟨1, 0⟩), (.derived 353022001, ⟨-2, 3⟩),
+    (.base .Second, ⟨5, -3⟩)] := by decide +kernel
+
+/-- **C17 (constants).** Every constant whose unit uses supported keys: any source, any
+tokens, any description, any rational value. This covers every shipped constant (their
+units are built from table units). -/
+theorem C17_constant (c : Constant) (h : CompoundOk c.unit) : decConstant (encConstant c) = some c :=
+  decConstant_encConstant c h
+
+def exConstant : Constant :=
+  { source := some 3, tokens := ["speed".toList, "light".toList], description := "speed of light".toList,
+    value := 299792458, unit := [(.base .Meter, ⟨1, 0⟩), (.base .Second, ⟨-1, 0⟩)] }
+
+example : CompoundOk exConstant.unit := by intro e he; cases e with | mk u s => cases u <;> simp_all [exConstant, UnitOk]
+
+/-! ## Byte level -/
+
+/-- Big-endian arguments. -/
+theorem C17_ofBe_beBytes (k n : Nat) (h : n < 256 ^ k) : ofBe (beBytes k n) = n := ofBe_beBytes k n h
+
+/-- Shortest-form heads: any major type, any 64-bit argument, any trailing bytes. -/
+theorem C17_readHead (m n : Nat) (rest : List Nat) (hm : m < 8) (hn : n < 2 ^ 64) :
+    readHead (head m n ++ rest) = some (m, n, rest) := readHead_head m n rest hm hn
+
+example : readHead (head 5 70000 ++ [1, 2]) = some (5, 70000, [1, 2]) := by decide
+
+/-- Texts: UTF-8 encoding followed by validation and decoding is the identity on **every**
+list of characters (so `Encodable` carries no validity condition on texts). -/
+theorem C17_utf8 (s : List Char) : fromUtf8 (utf8 s) = some s := fromUtf8_utf8 s
+
+/-- `Encodable v` (defined in `Lemmas/CborBytes.lean`) unfolds to: every `uint`/`nint`
+argument, every byte-string, text (in UTF-8 bytes), array and map length is `< 2^64`,
+recursively. -/
+example (n : Nat) : Encodable (.uint n) = (n < 2 ^ 64) := rfl
+example (s : List Char) : Encodable (.text s) = ((utf8 s).length < 2 ^ 64) := rfl
+example (xs : List CVal) : Encodable (.array xs) ↔ xs.length < 2 ^ 64 ∧ ∀ x ∈ xs, Encodable x := by
+  rw [← encodableList_iff]; rfl
+example (kvs : List (CVal × CVal)) :
+    Encodable (.map kvs) ↔ kvs.length < 2 ^ 64 ∧ ∀ e ∈ kvs, Encodable e.1 ∧ Encodable e.2 := by
+  rw [← encodablePairs_iff]; rfl
+
+/-- The decoder reads one encoded item off the front of any byte stream, given fuel at
+least twice its length. -/
+theorem C17_decode (v : CVal) (hv : Encodable v) (fuel : Nat) (rest : List Nat)
+    (hf : 2 * (encode v).length ≤ fuel) : decode fuel (encode v ++ rest) = some (v, rest) :=
+  decode_encode v hv fuel rest hf
+
+/-- **C17 (bytes).** Every encodable CBOR value decodes back from its bytes. -/
+theorem C17_bytes (v : CVal) (hv : Encodable v) : decodeAll (encode v) = some v := decodeAll_encode v hv
+
+/-- Consequently the bytes determine the value: `encode` is injective on encodable values. -/
+theorem C17_encode_injective (v w : CVal) (hv : Encodable v) (hw : Encodable w)
+    (h : encode v = encode w) : v = w := by
+  have := C17_bytes v hv
+  rw [h, C17_bytes w hw] at this
+  exact (Option.some.inj this).symm
+
+/-- The 64-bit bound is needed: `2^64` is written with a truncated head and reads back as `0`. -/
+theorem C17_bytes_bound_needed : decodeAll (encode (.uint (2 ^ 64))) = some (.uint 0) := by
+  rfl
+
+example : Encodable (.map [(.text ['a', 'é'], .array [.uint 300, .nint 0, .null, .bytes [1, 2]])]) := by
+  refine ⟨by decide, encodable_text _ (by decide), ⟨by decide, ?_⟩, trivial⟩
+  exact ⟨show 300 < 2 ^ 64 by decide, show 0 < 2 ^ 64 by decide, trivial,
+    show [1, 2].length < 2 ^ 64 by decide, trivial⟩
+
+/-! ## Composition: bytes → CBOR value → value -/
+
+/-- Small integers (`i8` sign, `i32` power and prefix): encodable iff in `[-2^64, 2^64)`. -/
+theorem C17_cInt_encodable_iff (i : Int) : Encodable (cInt i) ↔ (-2 ^ 64 ≤ i ∧ i < 2 ^ 64) :=
+  encodable_cInt_iff i
+
+/-- **C17 (big integers, bytes).** `LimbsOk i` says that the number of limbs fits an array
+head, i.e. `|i| < (2^32)^k` for some `k < 2^64` (`limbsOk_of_lt`); an integer violating
+it would need more than 64 EiB. -/
+theorem C17_bigint_bytes (i : Int) (h : LimbsOk i) :
+    (decodeAll (encode (encBigInt i))).bind decBigInt = some i := by
+  rw [C17_bytes _ (encodable_encBigInt i h)]; exact C17_bigint i
+
+/-- **C17 (rationals, bytes).** -/
+theorem C17_rat_bytes (r : Rat) (hn : LimbsOk r.num) (hd : LimbsOk r.den) :
+    (decodeAll (encode (encRat r))).bind decRat = some r := by
+  rw [C17_bytes _ (encodable_encRat r hn hd)]; exact C17_rat r
+
+example : LimbsOk (-(2 ^ 100) - 7) := limbsOk_of_lt _ 4 (by decide) (by decide)
+example : LimbsOk ((-5 / 3 : Rat).num) ∧ LimbsOk ((-5 / 3 : Rat).den) :=
+  ⟨limbsOk_of_lt _ 1 (by decide) (by decide +kernel), limbsOk_of_lt _ 1 (by decide) (by decide +kernel)⟩
+
+/-- **C17 (units, bytes).** -/
+theorem C17_unit_bytes (u : UnitKey) (h : UnitOk u) :
+    (decodeAll (encode (encUnit u))).bind decUnit = some u := by
+  rw [C17_bytes _ (encodable_encUnit u h)]; exact C17_unit u h
+
+/-- **C17 (state, bytes).** `StateOk`: both fields in `[-2^64, 2^64)` — the Rust fields are `i32`. -/
+theorem C17_state_bytes (s : State) (h : StateOk s) :
+    (decodeAll (encode (encState s))).bind decState = some s := by
+  rw [C17_bytes _ (encodable_encState s h)]; exact C17_state s
+
+/-- **C17 (compounds, bytes).** `CompoundEnc c`: fewer than `2^64` entries, each with a
+supported key and a machine-range state. -/
+theorem C17_compound_bytes (c : Compound) (h : CompoundEnc c) :
+    (decodeAll (encode (encCompound c))).bind decCompound = some c := by
+  rw [C17_bytes _ (encodable_encCompound c h)]; exact C17_compound c h.ok
+
+example : CompoundEnc exCompound := ⟨by decide, C17_exCompound_ok⟩
+
+/-- **C17 (constants, bytes).** `ConstantEnc c`: source below `2^64` (a `u64`), fewer than
+`2^64` tokens, tokens and description shorter than `2^62` characters, value with
+`LimbsOk` numerator and denominator, unit with `CompoundEnc`. -/
+theorem C17_constant_bytes (c : Constant) (h : ConstantEnc c) :
+    (decodeAll (encode (encConstant c))).bind decConstant = some c := by
+  rw [C17_bytes _ (encodable_encConstant c h)]; exact C17_constant c h.unit.ok
+
+/-- The texts the codecs emit themselves (field names, the `Derived` tag, base-unit
+names) are all short, hence encodable. -/
+theorem C17_emitted_texts : ∀ s ∈ emittedTexts, Encodable (str s) := encodable_str
+
+/-! ## Identifiers -/
+
+/-- **C17 (ids unique).** The identifiers of the derived units are pairwise distinct. -/
+theorem C17_ids_unique : (Generated.units.map (·.id)).Nodup := by decide +kernel
+
+/-- Every identifier is a `u32`. -/
+theorem C17_ids_u32 : ∀ u ∈ Generated.units, u.id < 2 ^ 32 := units_id_lt
+
+/-- **C17 (ids decode).** Looking an identifier up in the table (`id_to_derived`, model
+`Units.find?`) gives back the very same unit definition. -/
+theorem C17_ids_lookup : ∀ u ∈ Generated.units, Units.find? u.id = some u :=
+  fun u hu => find?_id_of_nodup _ C17_ids_unique u hu
+
+/-- **C17 (ids decode, codec).** Every derived unit of the table is written as its
+identifier and read back as the same unit key — at the value level and through bytes. -/
+theorem C17_ids_decode : ∀ u ∈ Generated.units,
+    decUnit (encUnit (.derived u.id)) = some (.derived u.id) ∧
+    (decodeAll (encode (encUnit (.derived u.id)))).bind decUnit = some (.derived u.id) :=
+  fun u hu => ⟨C17_unit _ ⟨u, hu, rfl⟩, C17_unit_bytes _ ⟨u, hu, rfl⟩⟩
+
+/-- The named constants of `ids.rs` are pairwise distinct and are exactly the
+identifiers of the table. -/
+theorem C17_idConsts :
+    (Generated.idConsts.map (·.2)).Nodup ∧
+    (∀ c ∈ Generated.idConsts, ∃ u ∈ Generated.units, u.id = c.2) ∧
+    (∀ u ∈ Generated.units, ∃ c ∈ Generated.idConsts, c.2 = u.id) := by
+  refine ⟨by decide +kernel, by decide +kernel, by decide +kernel⟩
+
+example : Generated.units.length = 78 := by decide +kernel
+
+/-! ## JSON
+
+The model contains the JSON *printer* of a rational only (`jsonRat`, the nested-array
+form `[[sign,[limbs…]],[sign,[limbs…]]]`); reading JSON back is exercised by the
+differential harness against the real `serde_json`. What is proved here: the printed
+text determines the rational. -/
+
+/-- **C17 (JSON).** Two rationals with the same JSON text are equal. -/
+theorem C17_json_rat_injective (r s : Rat) (h : jsonRat r = jsonRat s) : r = s := jsonRat_inj h
+
+/-- The same for the big-integer component, inside any context. -/
+theorem C17_json_bigint_unique (i j : Int) (r₁ r₂ : List Char)
+    (h : jsonBigInt i ++ r₁ = jsonBigInt j ++ r₂) : i = j ∧ r₁ = r₂ := jsonBigInt_unique i j r₁ r₂ h
+
+example : String.ofList (jsonRat (-5 / 3)) = "[[-1,[5]],[1,[3]]]" := by decide +kernel
+
+/-! ### Stable identifiers: a unit expression written by one build reads identically in the next -/
+
+/-- **C17 (identifiers are stable).** Every identifier recorded at the pinned commit
+(`Spec/PinnedIds.lean`: identifier and display name of each derived unit) still denotes
+the unit of that name in the table extracted from the current source — so bytes written
+by the pinned build, the shipped database included, keep their meaning. Units may be
+added; an identifier may not be re-used or moved. -/
+theorem C17_ids_stable :
+    Anything.Spec.Pinned.ids.all (fun p =>
+      (Anything.Generated.units.find? (fun u => u.id == p.1)).map (·.sing) == some p.2) = true := by
+  decide +kernel
+
 end Anything.Props.C17
